@@ -14,7 +14,8 @@ def corpus_cases(ctx):
     for p in sorted(glob.glob(os.path.join(os.path.dirname(ac.__file__), "..", "corpus", "C03", "*.json"))):
         rec = json.load(open(p))
         out.append(dict(flavour=rec["flavour"], lines=rec.get("lines"), prog=rec.get("prog") or [], tag="corpus",
-                        execute=rec.get("execute", True), src=os.path.basename(p)))
+                        execute=rec.get("execute", True), src=os.path.basename(p),
+                        alias=bool(rec.get("shared_operand_objects"))))
     return out
 
 
@@ -23,6 +24,10 @@ def gen_cases(ctx, impl, n_exec, n_any, n_text, n_bad):
     cases = []
     for _ in range(n_exec):
         cases.append(dict(flavour=rng.choice(ac.FLAVS), lines=None, prog=ag.gen_exec_prog(rng), tag="ir-exec", execute=True))
+    for _ in range(max(40, n_exec // 5)):
+        # built the way callers do: shared operand lists / operand objects between commands, repeated instructions
+        cases.append(dict(flavour=rng.choice(ac.FLAVS), lines=None, prog=ag.with_repeats(rng, ag.gen_exec_prog(rng, max_len=8)),
+                          tag="ir-aliased-operands", execute=True, alias=True))
     for _ in range(max(20, n_exec // 8)):
         prog = ag.gen_loop0_prog(rng)
         if rng.random() < 0.5:
@@ -90,8 +95,10 @@ def front_stage(ctx, impl, cases, quick):
     the real parser reading the canonical text back"""
     rng = ctx.rng
     texts = [c["lines"] for c in cases if c["lines"] is not None]
+    if quick:
+        texts = rng.sample(texts, min(len(texts), 220))
     texts += [list(x) for x in PREAMBLE_FIXED]
-    texts += [gen_preamble_text(rng) for _ in range(300 if quick else 3000)]
+    texts += [gen_preamble_text(rng) for _ in range(200 if quick else 3000)]
     fcases, n_unsup, n_rej = [], 0, 0
     for lines in texts:
         proto = impl.parse_front(lines)
@@ -103,7 +110,9 @@ def front_stage(ctx, impl, cases, quick):
         ctx.note_case(("front", json.dumps(lines)), nontrivial=len(lines) > 0)
     kcases = []
     progs = [c["prog"] for c in cases if c["lines"] is None and c["prog"]]
-    for _ in range(200 if quick else 2000):
+    if quick:
+        progs = rng.sample(progs, min(len(progs), 250))
+    for _ in range(100 if quick else 2000):
         progs.append(ag.gen_exec_prog(rng, max_len=8))
     for prog in progs:
         lines = ac.canonical_lines(prog)
@@ -153,6 +162,9 @@ def seq_stage(ctx, impl, n, prefix="seq"):
                 break
             subs.append(sub)
         obs = impl.execute_seq(subs, BOUND) if subs else []
+        if None in obs:  # a huge array was requested: drop the rest of the sequence
+            obs = obs[:obs.index(None)]
+            steps = steps[:len(obs)] or steps[:1]
         for st, o in zip(steps, obs):
             st["obs"] = o
             kk = ["halted", "fault", "step-bound", "blocked-in-wait"][o["kind"]]
@@ -220,7 +232,12 @@ def run_impl(impl, c):
     if c["lines"] is not None:
         out, sub = impl.assemble_text(c["flavour"], "\n".join(c["lines"]) + "\n", c.get("rsv"))
     else:
-        out, sub = impl.assemble_ir(c["flavour"], c["prog"], c.get("rsv"))
+        out, sub = impl.assemble_ir(c["flavour"], c["prog"], c.get("rsv"), alias=c.get("alias", False))
+        if c.get("alias"):
+            # the same program description assembled again from fresh objects gives the same instructions
+            out2, _ = impl.assemble_ir(c["flavour"], c["prog"], c.get("rsv"))
+            if out2 != out:
+                c["alias_differs"] = out2
     c["out"], c["fuel"], c["obs"] = out, BOUND, None
     if sub is not None and c["execute"]:
         c["obs"] = impl.execute(sub, BOUND)
@@ -229,6 +246,10 @@ def run_impl(impl, c):
 
 def replay_dict(c):
     d = dict(flavour=c["flavour"], implementation_result=c["out"], executor=c["obs"], reserved_registers=c.get("rsv") or [])
+    if c.get("alias"):
+        d["shared_operand_objects"] = True
+        if "alias_differs" in c:
+            d["result_from_unshared_objects"] = c["alias_differs"]
     if c["lines"] is not None:
         d["lines"] = c["lines"]
     else:
@@ -271,7 +292,7 @@ def report(ctx, differing):
 def run(ctx):
     ctx.rule = ("proto-programs over (a) the classical instructions with literals in every value position incl. array "
                 "indices, bracket args, labels anywhere (consecutive, after the last instruction), counted loops, "
-                "1..16 named R registers; (b) every class of the flavour with operands by kind, literals for registers, "
+                "1..16 named R registers, also built with SHARED operand lists / operand objects between commands; (b) every class of the flavour with operands by kind, literals for registers, "
                 "wrong kinds, repeated/undefined labels; the same rendered as text with macros (keys that are prefixes of "
                 "other keys), comments, indentation, bracket args; one-edit malformed texts.  Each is assembled by the real "
                 "code and by the model (instruction lists / error class compared); executable ones run on the real Executor "
@@ -284,10 +305,13 @@ def run(ctx):
     if impl is None:
         return ctx.finish()
     ctx.props("C03")
+    ctx.props("C03_wire")
     quick = ctx.tier == "quick"
     cases = corpus_cases(ctx)
-    cases += gen_cases(ctx, impl, *((500, 120, 450, 120) if quick else (6000, 1200, 5000, 1200)))
+    cases += gen_cases(ctx, impl, *((400, 90, 330, 90) if quick else (6000, 1200, 5000, 1200)))
+    ctx.log("props compiled")
     differing = evaluate(ctx, impl, cases, "cases")
+    ctx.log("main stream evaluated")
     stats, feats, kinds = {}, {}, {}
     for c in cases:
         stats[c["tag"]] = stats.get(c["tag"], 0) + 1
@@ -321,8 +345,10 @@ def run(ctx):
     ctx.assume.append("executions start from the initial state of a fresh application; the theorem quantifies over all "
                       "start states")
     report(ctx, differing)
-    seq_stage(ctx, impl, 150 if quick else 2000)
-    q_stage(ctx, impl, 150 if quick else 3000)
+    seq_stage(ctx, impl, 100 if quick else 2000)
+    ctx.log("sequences evaluated")
+    q_stage(ctx, impl, 110 if quick else 3000)
+    ctx.log("event programs evaluated")
     front_stage(ctx, impl, cases, quick)
     if ctx.broken and not ctx.violations:
         search(ctx, impl)
@@ -373,7 +399,7 @@ def replay(ctx, path):
                 ctx.broken.append(f"correspondence on the replayed sequence (code {code})")
         return ctx.finish()
     c = dict(flavour=rec["flavour"], lines=rec.get("lines"), prog=rec.get("prog", []), tag="replay", execute=True,
-             rsv=rec.get("reserved_registers") or [])
+             rsv=rec.get("reserved_registers") or [], alias=bool(rec.get("shared_operand_objects")))
     differing = evaluate(ctx, impl, [c], "replay")
     print("replay:", json.dumps(replay_dict(c))[:2000], "codes:", [code for _, code in differing])
     report(ctx, differing)
